@@ -153,7 +153,9 @@ func Type(t *rapid.T, o TypeOpts, depth int) spec.TypeSpec {
 	return spec.Ptr(StructType(t, o, depth+1))
 }
 
-var jsonNames = []string{"a", "b", "c", "id", "name", "value", "x_1", "Y2", "camelCase", "snake_case", "F0", "F1"}
+// jsonNames includes pairs that differ only in case: they are distinct names.
+var jsonNames = []string{"a", "b", "c", "id", "name", "value", "x_1", "Y2", "camelCase", "snake_case", "F0", "F1",
+	"ID", "Id", "Name", "NAME", "url", "URL", "A", "Value", "f0", "f1"}
 
 // StructType draws a struct type with distinct schema field names.
 func StructType(t *rapid.T, o TypeOpts, depth int) spec.TypeSpec {
